@@ -1,7 +1,7 @@
 From Coq Require Import List NArith Bool Arith Permutation Lia.
 Import ListNotations.
 Require Import MV.Common.Interleave MV.C05.Model MV.C05.Spec MV.C05.Exec.
-Require Import MV.C05.ProofsSeq MV.C05.ProofsInv MV.C05.ProofsCor MV.C05.ProofsUniq MV.C05.ProofsCons MV.C05.ProofsProg MV.C05.ProofsSnap MV.C05.ProofsEmpty MV.C05.ProofsOrder MV.C05.ProofsSpec MV.C05.ProofsTrace1 MV.C05.ProofsTrace2 MV.C05.ProofsTrace3 MV.C05.ProofsTrace4 MV.C05.ProofsTrace5.
+Require Import MV.C05.ProofsSeq MV.C05.ProofsInv MV.C05.ProofsCor MV.C05.ProofsUniq MV.C05.ProofsCons MV.C05.ProofsProg MV.C05.ProofsSnap MV.C05.ProofsEmpty MV.C05.ProofsOrder MV.C05.ProofsSpec MV.C05.ProofsTrace1 MV.C05.ProofsTrace2 MV.C05.ProofsTrace3 MV.C05.ProofsTrace4 MV.C05.ProofsTrace5 MV.C05.ProofsTrace6 MV.C05.ProofsTrace7.
 Local Open Scope nat_scope.
 Require Import MV.C05.Properties.
 
@@ -185,8 +185,11 @@ Check (C05_spec_ok_on_model_partial : forall c : case,
                                          match fst qs with Some _ => true | None => false end) (rsl rc))
           (rcalls tr 0 rss) = true).
 Print Assumptions C05_spec_ok_on_model_partial.
-Check (C05_spec_ok_on_model_needs_size_bound : exists c, known_class c = None /\ spec_ok c (run_case c) = false).
-Print Assumptions C05_spec_ok_on_model_needs_size_bound.
+Check (C05_oversized_final_read_regression : known_class oversized_case = None /\
+  (let '(_, rss, done, final, _) := run_case oversized_case in
+   done = true /\ length final = N.to_nat 136 /\
+   length (cleared_out rss ++ concat final) = N.to_nat 8700 /\ length (all_pushes (progs_of oversized_case) 0) = N.to_nat 8700)).
+Print Assumptions C05_oversized_final_read_regression.
 Check (C05_spec_final_read_on_model : forall c : case,
   let '(tr, _, _, final, _) := run_case c in
   nodupb (concat final) = true /\ forallb (slice_genuine (pinfos tr 0 (progs_of c)) None) final = true).
@@ -208,6 +211,19 @@ Check (C05_spec_ok_on_model_partial2 : forall c : case,
   && forallb (fun c0 => forallb (fun qs => slice_ordered tbl (snd qs)) (rsl c0)) rc
   && forallb (slice_ordered tbl) final = true).
 Print Assumptions C05_spec_ok_on_model_partial2.
+Check (C05_final_read_finishes : forall B fxc s ls, 1 <= B -> All B (s, ls) ->
+  (forall u l, nth_error ls u = Some l -> pcl l = Done) ->
+  let f := final_data B true fxc s in
+  (forall d i x, Reach (heap s) (tail s) d -> slot (heap s) d i = Some x -> pub (heap s) d i -> In x (concat f)) /\
+  (forall x, In x (concat f) -> exists d i, slot (heap s) d i = Some x /\ Reach (heap s) (tail s) d)).
+Print Assumptions C05_final_read_finishes.
+Check (C05_spec_conservation_on_model : forall c : case, known_class c = None ->
+  let '(tr, rss, done, final, _) := run_case c in
+  done = true ->
+  let rhs := flat_map handed (filter is_clear (rcalls tr 0 rss)) ++ concat final in
+  nodupb rhs && forallb (fun i => memb (px i) rhs) (pinfos tr 0 (progs_of c))
+  && Nat.eqb (length rhs) (length (pinfos tr 0 (progs_of c))) = true).
+Print Assumptions C05_spec_conservation_on_model.
 Check (C05_popcount_len_refuted : let cf := fst (exec (step BS true true) site (init_config [[CPush 1%N]; [CPush 2%N]; [CData]]) popcount_sched) in
   let k := getb (heap (fst cf)) 0 in
   option_map pcl (nth_error (snd cf) 2) = Some (WD false 0 []) /\
